@@ -12,8 +12,8 @@ Open Scope Z_scope.
 Inductive acc : Type :=
 | ACount (n : Z) (cond : option expr)
 | ASum (total : f64) (e : expr)
-| AMin (m : f64) (mi : option Z) (e : expr)     (* float candidates; the integers, kept exactly (fix b2f85e2) *)
-| AMax (m : f64) (mi : option Z) (e : expr)
+| AMin (m : option f64) (mi : option Z) (e : expr)     (* the other numbers (None until one is seen); the integers, kept exactly *)
+| AMax (m : option f64) (mi : option Z) (e : expr)
 | AAvg (total : f64) (n : Z) (e : expr)
 | ADistinct (seen : list value) (e : expr)
 | APct (vals : list f64) (p : f64) (e : expr).   (* CKMS sketch: contents only *)
@@ -22,8 +22,8 @@ Definition acc_empty (f : aggfn) : acc :=
   match f with
   | FCount c => ACount 0 c
   | FSum e => ASum f_zero e
-  | FMin e => AMin f_inf None e
-  | FMax e => AMax f_neg_inf None e
+  | FMin e => AMin None None e
+  | FMax e => AMax None None e
   | FAvg e => AAvg f_zero 0 e
   | FDistinct e => ADistinct [] e
   | FPct p e => APct [] p e
@@ -42,14 +42,8 @@ Definition exact_int_of (r : res value) : option Z :=
 (** [Ord::min] / [Ord::max] on values *)
 Definition vmin (a b : value) : value := match vcmp b a with Lt => b | _ => a end.
 Definition vmax (a b : value) : value := match vcmp b a with Lt => a | _ => b end.
-Definition minmax_emit (is_min : bool) (m : f64) (mi : option Z) : value :=
-  (* the initial value (+inf for min, -inf for max) means that no float was seen; an infinite extremum that WAS seen is reported *)
-  let of_floats :=
-    match m, is_min with
-    | S754_infinity false, true => None
-    | S754_infinity true, false => None
-    | _, _ => Some (from_float m)
-    end in
+Definition minmax_emit (is_min : bool) (m : option f64) (mi : option Z) : value :=
+  let of_floats := option_map from_float m in
   match mi, of_floats with
   | Some i, Some f => if is_min then vmin (VInt i) f else vmax (VInt i) f
   | Some i, None => VInt i
@@ -68,7 +62,8 @@ Definition acc_step (a : acc) (d : data) : acc :=
       match eval_f64 e d with
       | Ok v => match exact_int_of (eval e d) with
                 | Some i => AMin m (Some (match mi with Some s => Z.min i s | None => i end)) e
-                | None => if fltb v m then AMin v mi e else a
+                | None => if f_is_nan v then a else
+                          match m with Some s => if fltb v s then AMin (Some v) mi e else a | None => AMin (Some v) mi e end
                 end
       | _ => a
       end
@@ -76,7 +71,8 @@ Definition acc_step (a : acc) (d : data) : acc :=
       match eval_f64 e d with
       | Ok v => match exact_int_of (eval e d) with
                 | Some i => AMax m (Some (match mi with Some s => Z.max i s | None => i end)) e
-                | None => if fltb m v then AMax v mi e else a
+                | None => if f_is_nan v then a else
+                          match m with Some s => if fltb s v then AMax (Some v) mi e else a | None => AMax (Some v) mi e end
                 end
       | _ => a
       end
